@@ -178,6 +178,10 @@ func draw(rt *rapid.T) Scenario {
 			ms.ParamS = rapid.Int64Range(1200, window-1800).Draw(rt, "d")
 		case shapeIntermittent:
 			ms.ParamS = rapid.Int64Range(1800, window/2).Draw(rt, "p")
+		case shapeOldOnly:
+			// how long before the window the last sample is: pint's slices start on 2h boundaries, so it may
+			// or may not still see it ("disappeared" versus "never there" - a Bug either way)
+			ms.ParamS = rapid.Int64Range(660, 3*3600).Draw(rt, "oldgap")
 		}
 		sc.Metrics = append(sc.Metrics, ms)
 	}
@@ -188,6 +192,16 @@ func draw(rt *rapid.T) Scenario {
 	nr := rapid.IntRange(1, detsim.Scale(4, 6)).Draw(rt, "nrules")
 	for i := 0; i < nr; i++ {
 		r := RuleSpec{Expr: drawExpr(rt, nm)}
+		if nm >= 2 && rapid.IntRange(0, 4).Draw(rt, "pair") == 0 {
+			// two bare metrics in one expression without a fallback: what is found out about the
+			// first must not decide what is said about the second
+			a := rapid.IntRange(0, nm-1).Draw(rt, "pairA")
+			b := (a + 1 + rapid.IntRange(0, nm-2).Draw(rt, "pairB")) % nm
+			r.Expr = fmt.Sprintf([]string{"m%d / m%d", "m%d * on(job) group_left() m%d", "m%d - m%d > 0"}[rapid.IntRange(0, 2).Draw(rt, "pairT")], a, b)
+			if longPad {
+				r.Expr = strings.NewReplacer(fmt.Sprintf("m%d", a), fmt.Sprintf("m%d{%s}", a, padMatcher), fmt.Sprintf("m%d", b), fmt.Sprintf("m%d{%s}", b, padMatcher)).Replace(r.Expr)
+			}
+		}
 		switch rapid.IntRange(0, 5).Draw(rt, "rkind") {
 		case 0: // a recording rule that may well produce one of the queried metrics
 			r.Record = fmt.Sprintf("m%d", rapid.IntRange(0, nm-1).Draw(rt, "recname"))
@@ -379,7 +393,11 @@ func buildDB(sc *Scenario, now time.Time) *simprom.MemDB {
 				ls = labels.FromStrings("__name__", name, "instance", fmt.Sprintf("i%d", k))
 				ivs = [][2]int64{all}
 			case shapeOldOnly:
-				ivs = [][2]int64{{-window - 4*3600, -window - 3600}}
+				gap := m.ParamS
+				if gap == 0 {
+					gap = 3600 // scenario files written before the gap was drawn
+				}
+				ivs = [][2]int64{{-window - gap - 3*3600, -window - gap}}
 			}
 			add(ls, ivs)
 		}
